@@ -195,11 +195,11 @@ def run(ck):
         for j, rc, se in sdead:
             failing.append(({"goroutines": j["n"], "docs": j["docs"]}, "free-running stress: process died: " + se[-400:]))
 
-    # thorough: free-running stress under the race detector
-    if not ck.quick:
+    # free-running stress under the race detector (the cached AST is shared by all goroutines: any write while rendering is a race)
+    if True:
         hbr, msgr = vlib.build_harness(race=True)
-        stress = [{"id": i, "docs": [cl.DOCS[0], cl.DOCS[0], cl.DOCS[2], cl.DOCS[3]], "n": n, "reps": 30, "cache": True}
-                  for i, n in enumerate([2, 4, 8, 16, 16, 16])]
+        stress = [{"id": i, "docs": [cl.DOCS[0], cl.DOCS[8], cl.DOCS[2], cl.DOCS[3], cl.DOCS[8]], "n": n, "reps": 30 if not ck.quick else 8, "cache": True}
+                  for i, n in enumerate([2, 4, 8, 16, 16, 16] if not ck.quick else [4, 8])]
         sres, sdead = common.run_jobs(hbr, "conc", stress, procs=3, timeout=1500)
         for j in stress:
             r = sres.get(j["id"])
